@@ -479,8 +479,13 @@ def contract_call(ex, c, fi, recv, pos, kw, st, fr):
     ex.havoc_heap(post, c.modifies, cfr, hv_view)
     # allocation only grows
     r = z3.Const('cc_r', Ref)
-    extra = fresh('alloc', z3.ArraySort(Ref, B))
-    post.heap.set('alive', z3.Lambda([r], z3.Or(old.heap.alive(r), extra[r])))
+    if sym.BOUND is None:
+        na = fresh('alive', z3.ArraySort(Ref, B))
+        post.assume(z3.ForAll([r], z3.Implies(old.heap.alive(r), na[r]), patterns=[na[r]]))
+        post.heap.set('alive', na)
+    else:
+        extra = fresh('alloc', z3.ArraySort(Ref, B))
+        post.heap.set('alive', z3.Lambda([r], z3.Or(old.heap.alive(r), extra[r])))
     outs = []
     # exceptional outcomes
     for exc, cond_text, clauses in c.raises:
